@@ -31,9 +31,12 @@ func GenerateSquaresTable(limit int64) *SquaresTable {
 	// 3 squares can't produce everything, but this is compensated for
 	// so we only need to focus on n for which n == 2 (mod 4), with the
 	// tradeoff that limit is 4x as large
-	for i := int64(0); i*i <= 4*limit; i++ {
-		for j := int64(0); i*i+j*j <= 4*limit; j++ {
-			for k := int64(0); i*i+j*j+k*k <= 4*limit; k++ {
+	// The entry for limit itself holds the decomposition of 4*limit+2, so the search has to go that far
+	// (stopping at 4*limit left the last entry of the table empty).
+	max := 4*limit + 2
+	for i := int64(0); i*i <= max; i++ {
+		for j := int64(0); i*i+j*j <= max; j++ {
+			for k := int64(0); i*i+j*j+k*k <= max; k++ {
 				v := i*i + j*j + k*k
 				if v%4 != 2 {
 					continue
